@@ -48,23 +48,23 @@ theorem txInv_started (cfg : Cfg) (h1 : 0 < cfg.segInit) (h2 : cfg.privExt = fal
   rw [txv_setState]
   cases hp : cfg.passive
   · simp only [Bool.not_false, if_true]
-    refine ⟨rfl, rfl, h1, h2, by simp [Ep.txView, sendContact, sendMessage, kaReset, idleReset, hp],
-      by simp [Ep.txView, sendContact, sendMessage, kaReset, idleReset, hp], by simp,
-      by simp [Ep.txView, sendContact, sendMessage, kaReset, idleReset], by intro h; simp [Ep.txView, sendContact, sendMessage, kaReset, idleReset] at h,
-      by intro h; simp [Ep.txView, sendContact, sendMessage, kaReset, idleReset] at h,
-      by intro h; simp [Ep.txView, sendContact, sendMessage, kaReset, idleReset] at h,
-      by intro h; simp [Ep.txView, sendContact, sendMessage, kaReset, idleReset] at h,
-      by intro n it h; simp [Ep.txView, sendContact, sendMessage, kaReset, idleReset] at h,
-      rfl, by intro it h; simp [Ep.txView, sendContact, sendMessage, kaReset, idleReset] at h,
-      ⟨0, by simp [Ep.txView, sendContact, sendMessage, kaReset, idleReset], by simp,
-        by simp [Ep.txView, sendContact, sendMessage, kaReset, idleReset], fun _ _ => rfl⟩,
-      by intro it s h; simp [Ep.txView, sendContact, sendMessage, kaReset, idleReset] at h,
-      by simp [Ep.txView, sendContact, sendMessage, kaReset, idleReset], ?_, ?_, ?_⟩
-    · simp [Ep.txView, sendContact, sendMessage, kaReset, idleReset, legalRun, legalStep, phaseOf, curL]
-    · simp [Ep.txView, sendContact, sendMessage, kaReset, idleReset, rxSpec, rxSpecStep, curD, doneD]
-    · refine ⟨fun p hp => by simp [Ep.txView, sendContact, sendMessage, kaReset, idleReset] at hp, fun _ => ⟨rfl, ?_⟩, fun _ => rfl⟩
+    refine ⟨rfl, rfl, h1, h2, by simp [Ep.txView, sendContact, sendMessage, sendReady, kaReset, idleReset, hp],
+      by simp [Ep.txView, sendContact, sendMessage, sendReady, kaReset, idleReset, hp], by simp,
+      by simp [Ep.txView, sendContact, sendMessage, sendReady, kaReset, idleReset], by intro h; simp [Ep.txView, sendContact, sendMessage, sendReady, kaReset, idleReset] at h,
+      by intro h; simp [Ep.txView, sendContact, sendMessage, sendReady, kaReset, idleReset] at h,
+      by intro h; simp [Ep.txView, sendContact, sendMessage, sendReady, kaReset, idleReset] at h,
+      by intro h; simp [Ep.txView, sendContact, sendMessage, sendReady, kaReset, idleReset] at h,
+      by intro n it h; simp [Ep.txView, sendContact, sendMessage, sendReady, kaReset, idleReset] at h,
+      rfl, by intro it h; simp [Ep.txView, sendContact, sendMessage, sendReady, kaReset, idleReset] at h,
+      ⟨0, by simp [Ep.txView, sendContact, sendMessage, sendReady, kaReset, idleReset], by simp,
+        by simp [Ep.txView, sendContact, sendMessage, sendReady, kaReset, idleReset], fun _ _ => rfl⟩,
+      by intro it s h; simp [Ep.txView, sendContact, sendMessage, sendReady, kaReset, idleReset] at h,
+      by simp [Ep.txView, sendContact, sendMessage, sendReady, kaReset, idleReset], ?_, ?_, ?_⟩
+    · simp [Ep.txView, sendContact, sendMessage, sendReady, kaReset, idleReset, legalRun, legalStep, phaseOf, curL]
+    · simp [Ep.txView, sendContact, sendMessage, sendReady, kaReset, idleReset, rxSpec, rxSpecStep, curD, doneD]
+    · refine ⟨fun p hp => by simp [Ep.txView, sendContact, sendMessage, sendReady, kaReset, idleReset] at hp, fun _ => ⟨rfl, ?_⟩, fun _ => rfl⟩
       intro m hm
-      simp [Ep.txView, sendContact, sendMessage, kaReset, idleReset] at hm
+      simp [Ep.txView, sendContact, sendMessage, sendReady, kaReset, idleReset] at hm
       subst hm; rfl
   · simp only [Bool.not_true, Bool.false_eq_true, if_false]
     refine ⟨rfl, rfl, h1, h2, by simp [Ep.txView, hp], by simp [Ep.txView, hp], by simp,
